@@ -148,5 +148,6 @@ Proof.
     split; assumption.
   - simpl in Hwf. apply andb_true_iff in Hwf as [_ Hwf]. destruct (IH false (p ++ [0%nat]) Hwf) as [Hr Hc].
     cbn [alayout height width]. destruct (Nat.eqb n 1); [destruct show|];
-      unfold aborder, avstack, ahjuxt, asingle; simpl; rewrite ?Hr, ?Hc; split; lia.
+      unfold aborder, avstack, ahjuxt, asingle;
+      cbn [t_rows t_cols map list_sum fold_right c_rows c_cols plain]; rewrite ?Hr, ?Hc; split; lia.
 Qed.
